@@ -103,6 +103,8 @@ impl Drop for Helper {
 
 fn worker(family: &str) {
     std::panic::set_hook(Box::new(|_| {}));
+    let crash_only = std::env::var("VH_CRASH_ONLY").map_or(false, |v| v == "1");
+    let reject_only = std::env::var("VH_REJECT_ONLY").map_or(false, |v| v == "1");
     let stdin = std::io::stdin();
     let stdout = std::io::stdout();
     for line in stdin.lock().lines() {
@@ -114,7 +116,18 @@ fn worker(family: &str) {
             continue;
         }
         let verdict = match serde_json::from_str::<J>(&line) {
-            Ok(rec) => fam::check(family, &rec),
+            Ok(rec) => {
+                let v = fam::check(family, &rec);
+                // crash-only mode (C01, C09): only a panic of the code under test counts; aborts and hangs are seen by the supervisor
+                if crash_only && v.st == "viol" && !v.msg.to_lowercase().contains("panic") {
+                    Verdict::ok_with(v.nontrivial, json!({"ignored_in_crash_only_mode": v.msg}))
+                } else if reject_only && v.st == "viol" && rec["v"]["ok"] == true {
+                    // reject-only mode (C13): texts the recogniser model accepts are not this property's business
+                    Verdict::ok(false)
+                } else {
+                    v
+                }
+            }
             Err(e) => Verdict {
                 st: "toolerr",
                 nontrivial: false,
